@@ -262,6 +262,30 @@ PROPS = {
                         'Gen/Consts.v regenerated from the Go source by kvharness translate (minWaitScrapeTimes, relief threshold table as exact '
                         'binary64)',
                         'Go map iteration = any permutation, weightedrand.Pick = any eligible shard (Base/Sched.v)']},
+    'C15': {
+        'engines': [('thash', 160, 4000, ['-shardsize', '10'])],
+        'rule': 'one PRNG: a scrape job (scheme http/https, 3 paths, 0-2 params) and one target group (0-2 group labels, 1-3 (1-5) targets over 7 '
+                'address shapes incl. no port / IPv6 / DNS, 0-3 labels each from valid, INVALID (a.b, x-y), __meta_, __param_q, __metrics_path__, '
+                'instance names; values incl. UTF-8, spaces, long; 1/4 duplicated entries with labels in another order). Each case is run through '
+                'the REAL TargetsDiscovery (ApplyConfig, Run input channel, ActiveTargets) as: base; targets reversed + a group label pushed down; '
+                'common labels pulled up into the group IN A CHILD PROCESS; the group delivered twice, read through ActiveTargetsByHash; again in a '
+                'child process; plus 2 (4) single-edit variants (label value, added label, address, path, scheme, param, __param_ override, group '
+                'label). Observed per target: the hashed label set (private field read by reflect), URL string, ShardTarget.Hash. The model '
+                'recomputes every 64-bit value. non-trivial = base run has >= 1 active target; distinct by input',
+        'theorems': 'C15_function_of_content C15_merge C15_split_irrelevant C15_collapse C15_distinct_or_collision C15_labels_bytes_injective',
+        'trusted_base': ['Model/Hash.v: bit-exact Gallina xxhash64 + FNV-1a-64 + %016d + labels byte layout, hand-written; tie = exact equality with every '
+                         'hash the real discovery produced (parent and child processes)',
+                         'collision-freedom of xxhash64 / FNV-1a on distinct inputs is NOT provable; C15_distinct_or_collision names the two colliding '
+                         'inputs explicitly; sampled on every single-edit pair'],
+        'assumptions': ['label names and values contain no 0xff byte (valid UTF-8, enforced by populateLabels); the URL string does not start with a digit '
+                        '(it starts with its scheme) - otherwise %016d is not a fixed-width prefix for values >= 10^16',
+                        'populateLabels / relabeling (how the final label set comes about) is C02\'s business; here the hashed value is what is observed'],
+        'level_text': 'Proof: the hash is a function of the label SET (any permutation, any group/target split) and the URL; de-duplication keeps exactly '
+                      'one entry per hash; the pre-images of both hash stages are injective, so distinct targets get distinct hashes unless one of the '
+                      'two 64-bit functions collides on these very inputs (residual assumption, named). Stability across processes = the model is a '
+                      'closed function that reproduces every implementation hash bit for bit, incl. in child processes.',
+        'level_note': 'Trusted: Coq kernel; hand-written bit-exact hash model; 64-bit collision-freedom cannot be proved; harness (reflect read of scrape.Target.labels).',
+    },
     'C17': {
         'engines': [('discovery', 300, 6000, ['-shardsize', '50'])],
         'rule': 'histories of 3-8 (3-14 thorough) ops on the REAL TargetsDiscovery.Run (fed through its input channel) + ApplyConfig, with the real '
@@ -344,6 +368,8 @@ def classify(prop, engine, case):
         return 'C20-explore-other'
     if engine == 'store':
         return 'C09-store-%s' % (case.get('observed') or {}).get('Seen')
+    if engine == 'thash':
+        return 'C15-thash'
     if engine == 'discovery':
         return 'C17-discovery'
     if engine in ('sidecar', 'stats'):
